@@ -668,7 +668,7 @@ func c07Directed() []*c07Sched {
 // sizes of the driver's line tables vcChat / vcHostile / vcTimes (harness/overlay/bot_sched_test.go.txt)
 const (
 	c07NChatOld = 28
-	c07NChat    = 76
+	c07NChat    = 78
 	c07NHostile = 38
 	c07NTimes   = 16
 )
